@@ -77,6 +77,17 @@ def rule_reset(ctx, rid="reset", only=None):
         r.fail(loc, loc_s, "%s is read in %s (`%s`) before any whole-object store on a path from do_source_file's entry (call chain %s); "
                "it is written by %s and not reset on every path%s: the value left by the previous file is observed"
                % (loc, wfun.qn, db.src_line(wfun.file, wn["l"])[:70], " > ".join(db.funcs[k].qn for k in chain), stores_s[:6], dws))
+    if only is None:
+        # checked precondition of the reviewed exception for cpd.pass_count: the budget of newline passes is set in
+        # uncrustify_file() itself, in front of the loop that spends it
+        u = db.fn("uncrustify_file", file=UNC)
+        sets = [n for n in u.all_nodes() if n["k"] == "asg" and n["op"] == "=" and expr_str(u, n["a"][0]) == "cpd.pass_count" and (u.nodes.get(n["a"][1]) or {}).get("k") == "int"]
+        uses = [n for n in u.all_nodes() if n["k"] == "un" and n.get("op") in ("--", "++") and expr_str(u, n["a"][0]) == "cpd.pass_count"]
+        outside = [g.qn for g, n, st in gs.stores.get("cpd.pass_count", ()) if g.key != u.key]
+        r.check(bool(sets) and bool(uses) and all(any(u.dominates(s0["i"], x["i"]) for s0 in sets) for x in uses) and not outside,
+                "cpd.pass_count/set-per-file-before-it-is-spent", db.loc(u, uses[0] if uses else u.l0),
+                "the pass budget cpd.pass_count is not (only) set in uncrustify_file() in front of the loop that decrements it (other writers: %s): "
+                "later files of an invocation get what the earlier ones left" % outside)
     r.floor(40 if only is None else len(only))
 
 
